@@ -319,7 +319,7 @@ func randomSeq(r *rand.Rand, kinds []string, n int) []ev {
 	}
 	hot := []string{"RCR+", "RCAcur", "RCR+", "RCAcur", "RCR-", "RCNcur", "RCJcur", "TO", "RACE:RCAcur", "RACE:RCR+", "RTR", "RTA", "RCRmix", "RCRrej",
 		"RCAold", "RCAnc", "RCAnc", "RCAnew", "RCNnc", "RCJnc", "UNK", "UNK", "SPR", "SER", "KA",
-		"RCRone", "RCRdup", "RCRdupx", "RCRempty", "RCRunk", "RCRperm", "RCRmax", "RCRall"}
+		"RCRone", "RCRdup", "RCRdupx", "RCRempty", "RCRunk", "RCRperm", "RCRmax", "RCRall", "RCRloop", "RCRloop", "RCAsup", "RCAsup"}
 	in := map[string]bool{}
 	for _, k := range kinds {
 		in[k] = true
